@@ -280,4 +280,26 @@ Proof. eexists; eexists. split; [vm_compute; reflexivity | vm_compute; reflexivi
             ("C20_multi_rejects_wide", "Reject.v", "multi_rejects_wide"),
             ("C20_add_point_rejects_iff", "Reject.v", "add_point_rejects_iff"),
             ("C20_pla_init_rejects_iff", "Reject.v", "pla_init_rejects_iff")]),
+ "C16": dict(
+   header="""   C16 — concurrent read-only queries on one index are race-free and consistent.  PARTIAL BY NATURE.
+   Proved (general, any number of threads, any schedule):
+   * C16_race_free: threads that perform no write on shared locations have no two conflicting accesses
+     in ANY interleaving;
+   * C16_shared_memory_unchanged: under the same condition the shared memory is the same at every point
+     of every interleaving, so every read returns what it returns when the thread runs alone;
+   * C16_queries_read_only: the write effects of EVERY query entry point (search, segment_for_key, pred,
+     lower/upper_bound, count, contains, range, iterator ++, find, ...) extracted from the clang AST of the
+     CURRENT source (GenFootprints.v, regenerated on every run) contain no write rooted in *this, in a pointee
+     of a member, in a namespace/static variable, no mutable member, no const_cast; iterator objects are
+     written only by the thread that owns them;
+   * C16_entry_points_present: the extraction is not vacuous.
+   Trusted: completeness of the AST effect extraction (calls into libstdc++/sdsl are summarised by a list of
+   mutating member names), the C++ memory model.  Run-time side: a ThreadSanitizer harness with 2..16 reader
+   threads per class; per-thread digests compared with a sequential run.""",
+   imports=["GenFootprints", "Effects", "EffectsQueries"],
+   entries=[("C16_race_free", "Effects.v", "race_free"),
+            ("C16_shared_memory_unchanged", "Effects.v", "shared_memory_unchanged"),
+            ("C16_queries_read_only", "EffectsQueries.v", "queries_read_only"),
+            ("C16_entry_points_present", "EffectsQueries.v", "entry_points_present"),
+            ("C16_read_only_threads", "EffectsQueries.v", "read_only_footprints_give_read_only_threads")]),
 }
